@@ -20,17 +20,19 @@ IN_DOMAIN = {
     'csv': [('plain', 'hello'), ('unicode', 'Üñí-µm'), ('spaced', 'hello world'), ('int', 5), ('zero', 0), ('float', 5.5), ('negfloat', -2.25),
             ('bool', True), ('boolf', False), ('sci', 1.25e-12), ('big', 1e22), ('dotted', 'v1.2.3'), ('ключ', 'значение'),
             ('posexp', 2.5e+17), ('negposexp', -6.71e+18), ('exp16', 1e16),
-            ('cation', 'Na'), ('upper_na', 'NA'), ('word_null', 'null'), ('slash', 'n/a'), ('yes', 'yes'), ('word_t', 'T')],
+            ('cation', 'Na'), ('upper_na', 'NA'), ('word_null', 'null'), ('slash', 'n/a'), ('yes', 'yes'), ('word_t', 'T'),
+            ('reduced_with_pygaps_release', 'four'), ('x_model_param_y', 'z'), ('my_sample_id', 'S1'), ('_exptl_note', 'n')],
     'aif': [('plain', 'hello'), ('unicode', 'Üñí-µm'), ('spaced', 'hello world'), ('int', 5), ('zero', 0), ('float', 5.5), ('negfloat', -2.25),
             ('bool', True), ('boolf', False), ('sci', 1.25e-12), ('big', 1e22), ('dotted', 'v1.2.3'),
             ('posexp', 2.5e+17), ('negposexp', -6.71e+18), ('exp16', 1e16),
-            ('cation', 'Na'), ('upper_na', 'NA'), ('word_null', 'null'), ('slash', 'n/a'), ('yes', 'yes'), ('word_t', 'T')],
+            ('cation', 'Na'), ('upper_na', 'NA'), ('word_null', 'null'), ('slash', 'n/a'), ('yes', 'yes'), ('word_t', 'T'),
+            ('reduced_with_pygaps_release', 'four'), ('x_model_param_y', 'z'), ('my_sample_id', 'S1'), ('_pygaps_inside_pygaps_', 'v'), ('material_batch', 'b7'), ('adsorbate_purity', 'n5')],
     'xls': [('plain', 'hello'), ('unicode', 'Üñí-µm'), ('spaced', 'hello, world; "quoted"'), ('float', 5.5), ('negfloat', -2.25), ('intf', 5.0),
             ('bool', True), ('boolf', False), ('sci', 1.25e-12), ('text_int', '5'), ('text_true', 'true'), ('key with blank', 'v'),
             ('posexp', 2.5e+17), ('negposexp', -6.71e+18)],
 }
 OUT_DOMAIN = {
-    'csv': [('sep', 'a,b'), ('newline', 'a\nb'), ('text_int', '5'), ('text_true', 'true'), ('text_none', 'none'), ('empty', ''), ('list', [1, 2]),
+    'csv': [('sep', 'a,b'), ('trailing_sep', 'degassed overnight,'), ('leading_sep', ',x'), ('only_sep', ','), ('two_trailing', 'a,,'), ('newline', 'a\nb'), ('text_int', '5'), ('text_true', 'true'), ('text_none', 'none'), ('empty', ''), ('list', [1, 2]),
             ('strlist', ['a', 'b']), ('nested', {'a': 1}), ('negint', -3), ('key with blank', 'v'), ('text_list', '[1 2]'), ('lead_space', ' x')],
     'aif': [('quote', "it's"), ('newline', 'a\nb'), ('text_int', '5'), ('text_true', 'true'), ('text_none', 'none'), ('empty', ''), ('list', [1, 2]),
             ('nested', {'a': 1}), ('negint', -3), ('key with blank', 'v'), ('hash', 'a #b'), ('ключ', 'значение')],
